@@ -1,4 +1,6 @@
 import SamplyModel.Lemmas.SymbolicateD
+import SamplyModel.Lemmas.SymbolicateE
+import SamplyModel.Lemmas.SymbolicateF
 /-!
 # C07 — `/symbolicate/v5` answers every requested frame, in request shape, truthfully
 
@@ -392,6 +394,178 @@ theorem C07_sort_dedup_unobservable (look : Look) (extOrder) (hext : ExtOrderOk 
     · rw [if_pos hx, if_pos ((hsame x).mpr hx)]
     · rw [if_neg hx, if_neg (fun h => hx ((hsame x).mp h))]
 
+/-! ### The front end: `to_debug_id` and the untagged request enum (improvement round)
+
+`lookOf load` is what mod.rs:78-92 makes of the loader `load : debugName → DebugId → …`; every theorem above
+holds for it (they hold for every `look`). The theorems below are about the part that was the harness's
+business in the first round: which ids are rejected before anything is loaded, and which of the two request
+forms a body denotes. -/
+
+/-- **`to_debug_id` accepts exactly the well-formed breakpad ids** (declarative `BreakpadIdOk`: ASCII; 32 hex
+digits + a hexadecimal `u32` age, or the 9–16 character PDB 2.0 form; not nil; no `-` at position 8) and
+yields the `DebugId` the digits denote; every other string is `InvalidBreakpadId`. The left side follows the
+Rust code (digit loops with `checked_mul`/`checked_add`, `get(..8)`, `get(..32)`, the `-` test). -/
+theorem C07_debug_id_syntax (id : String) :
+    toDebugId id =
+      if BreakpadIdOk id.toList = true then .ok (breakpadIdValue id.toList)
+      else .error (invalidBreakpadId id) := by
+  unfold toDebugId
+  rw [toDebugIdChars_spec]
+  by_cases h : BreakpadIdOk id.toList = true <;> simp [h]
+
+/-- **A malformed id is reported, never loaded.** For every loader: a requested memory-map entry whose id is
+not a well-formed breakpad id has `found_modules[key] = false`, `module_errors[key] = [InvalidBreakpadId]`
+(the job's keys being injective), and every frame that refers to it carries no symbol. -/
+theorem C07_invalid_id (load : Load) (extOrder) (hext : ExtOrderOk extOrder) (req : Request)
+    (resp : Response) (h : queryApi (lookOf load) extOrder req = .ok resp)
+    (j : Nat) (job : Job) (res : JobResult) (hj : req.jobs[j]? = some job) (hres : resp.results[j]? = some res)
+    (hkeys : KeysInjective job) (lib : Lib) (hmem : lib ∈ job.memoryMap) (hreq : Requested req lib)
+    (hbad : BreakpadIdOk lib.breakpadId.toList = false) :
+    alookup res.foundModules (moduleKey lib) = some false ∧
+    alookup res.moduleErrors (moduleKey lib) = some [invalidBreakpadId lib.breakpadId] ∧
+    ∀ s i fr rf, req.frameAt j s i = some (job, fr) → resp.frameAt j s i = some rf →
+      job.memoryMap[fr.moduleIndex]? = some lib → rf.symbol = none := by
+  have hl : lookOf load lib = .error (invalidBreakpadId lib.breakpadId) := by
+    unfold lookOf
+    rw [C07_debug_id_syntax, hbad]
+    simp
+  obtain ⟨a, b⟩ := C07_isolation_reported (lookOf load) extOrder hext req resp h j job res hj hres hkeys lib
+    hmem hreq _ hl
+  refine ⟨a, b, fun s i fr rf hfa hra hlib => ?_⟩
+  have := C07_truthful (lookOf load) extOrder hext req resp h j s i job fr rf lib hfa hra hlib
+  rw [hl] at this
+  exact this
+
+/-- **The loader is consulted with (debug name, `DebugId`) only, and only for well-formed ids**: two loaders
+that agree wherever `to_debug_id` succeeds give the same answer to every request. -/
+theorem C07_loader_interface (load load' : Load) (extOrder) (req : Request)
+    (hagree : ∀ (lib : Lib) d, toDebugId lib.breakpadId = .ok d → load lib.debugName d = load' lib.debugName d) :
+    queryApi (lookOf load) extOrder req = queryApi (lookOf load') extOrder req := by
+  have : lookOf load = lookOf load' := by
+    funext lib
+    unfold lookOf
+    cases hd : toDebugId lib.breakpadId with
+    | error e => rfl
+    | ok d => exact hagree lib d hd
+  rw [this]
+
+/-- **Two spellings of one id are one library for the lookups**: memory-map entries with the same debug name
+whose well-formed ids denote the same `DebugId` (upper / lower case digits, leading zeros or `+` in the age)
+get the same direct lookups from every loader, hence (by `C07_truthful`) identical symbols at equal
+addresses. -/
+theorem C07_id_spelling (load : Load) (l1 l2 : Lib) (hn : l1.debugName = l2.debugName)
+    (h1 : BreakpadIdOk l1.breakpadId.toList = true) (h2 : BreakpadIdOk l2.breakpadId.toList = true)
+    (hv : breakpadIdValue l1.breakpadId.toList = breakpadIdValue l2.breakpadId.toList) :
+    lookOf load l1 = lookOf load l2 ∧ ∀ a, directSymbol (lookOf load) l1 a = directSymbol (lookOf load) l2 a := by
+  have : lookOf load l1 = lookOf load l2 := by
+    unfold lookOf
+    rw [C07_debug_id_syntax, C07_debug_id_syntax, h1, h2, hv, hn]
+    simp
+  refine ⟨this, fun a => ?_⟩
+  unfold directSymbol
+  rw [this]
+
+/-- **Which request a body denotes** (serde's untagged enum, request_json.rs:3-8): a `jobs` key whose jobs
+decode wins, whatever else the object has at top level; otherwise — no `jobs` key, or some number in it
+that is not a `u32` — the top-level `memoryMap`/`stacks` job is answered if it decodes; otherwise the parse
+error. -/
+theorem C07_body_forms (load : Load) (extOrder) (b : RawBody) :
+    (∀ js, b.jobs.bind decodeJobs = some js →
+      handleBody load extOrder b = queryApi (lookOf load) extOrder (.withJobsList js)) ∧
+    (b.jobs.bind decodeJobs = none → ∀ j, b.top.bind decodeJob = some j →
+      handleBody load extOrder b = queryApi (lookOf load) extOrder (.justOneJob j)) ∧
+    (b.jobs.bind decodeJobs = none → b.top.bind decodeJob = none →
+      handleBody load extOrder b = .error .parse) := by
+  refine ⟨fun js h => ?_, fun h j hj => ?_, fun h hj => ?_⟩
+  · simp [handleBody, decodeBody, h]
+  · simp [handleBody, decodeBody, h, hj]
+  · simp [handleBody, decodeBody, h, hj]
+
+/-- `C07_bad_index_unrepresentable` for bodies: when every form that is present contains a number that does
+not fit `u32`, the answer is the parse error (a form that is absent cannot rescue the request). -/
+theorem C07_body_unrepresentable (load : Load) (extOrder) (b : RawBody)
+    (hjobs : ∀ js, b.jobs = some js → ∃ job ∈ js, ∃ st ∈ job.stacks, ∃ p ∈ st,
+      p.1 < 0 ∨ 4294967296 ≤ p.1 ∨ p.2 < 0 ∨ 4294967296 ≤ p.2)
+    (htop : ∀ job, b.top = some job → ∃ st ∈ job.stacks, ∃ p ∈ st,
+      p.1 < 0 ∨ 4294967296 ≤ p.1 ∨ p.2 < 0 ∨ 4294967296 ≤ p.2) :
+    handleBody load extOrder b = .error .parse := by
+  have h1 : b.jobs.bind decodeJobs = none := by
+    cases hb : b.jobs with
+    | none => rfl
+    | some js =>
+      obtain ⟨job, hj, st, hs, p, hp, hbad⟩ := hjobs js hb
+      simp only [Option.bind_some]
+      exact (decodeJobs_none_iff js).mpr ⟨job, hj, st, hs, p, hp, (decodeFrame_none_iff p).mpr hbad⟩
+  have h2 : b.top.bind decodeJob = none := by
+    cases hb : b.top with
+    | none => rfl
+    | some job =>
+      obtain ⟨st, hs, p, hp, hbad⟩ := htop job hb
+      simp only [Option.bind_some]
+      exact (decodeJob_none_iff job).mpr ⟨st, hs, p, hp, (decodeFrame_none_iff p).mpr hbad⟩
+  exact (C07_body_forms load extOrder b).2.2 h1 h2
+
+/-- the first-round request type is the special case of a body with exactly one of the two forms -/
+theorem C07_body_of_request (load : Load) (extOrder) (raw : RawRequest) :
+    handleBody load extOrder raw.body = handle (lookOf load) extOrder raw := by
+  cases raw with
+  | withJobsList js =>
+    simp only [handleBody, decodeBody, RawRequest.body, handle, decode, Option.bind_some]
+    cases decodeJobs js <;> simp
+  | justOneJob j =>
+    simp only [handleBody, decodeBody, RawRequest.body, handle, decode, Option.bind_none, Option.bind_some]
+    cases decodeJob j <;> simp
+
+/-- **Totality over the symbol maps of C05.** The half `symAddr ≤ address` of `OracleOk` (the guard of the
+`u32` subtraction at mod.rs:232) is no assumption when the oracle function of every requested library that
+loads reports the symbols of a map modelled for C05 — an object file's symbol list (ELF / Mach-O / PE), a
+Breakpad index, a jitdump index, under the hypotheses of C05's `contains` theorems (`SymSource.WellFormed`):
+it is `C05_contains_{obj,bp,jit}`. What remains assumed is the non-empty frame list. Then every request with
+valid indices is answered, nothing panics, and every symbolicated frame lies inside the function it names:
+`function_offset < function_size` whenever a size is reported. -/
+theorem C07_total_over_C05 (look : Look) (extOrder) (hext : ExtOrderOk extOrder) (req : Request)
+    (hsrc : ∀ lib f, Requested req lib → look lib = .ok f →
+      ∃ src : SymSource, src.WellFormed ∧ SymbolsFrom f src)
+    (hframes : ∀ lib a f info, RequestedAddr req lib a → look lib = .ok f → f a = some info →
+      info.frames.resolved ≠ some []) :
+    OracleOk look req ∧
+    (AllIndicesValid req → ∃ resp, queryApi look extOrder req = .ok resp) ∧
+    (∀ site, queryApi look extOrder req ≠ .error (.panic site)) ∧
+    (∀ resp, queryApi look extOrder req = .ok resp →
+      ∀ j s i job fr rf sym, req.frameAt j s i = some (job, fr) → resp.frameAt j s i = some rf →
+        rf.symbol = some sym → ∀ n, sym.functionSize = some n → sym.functionOffset < n) := by
+  have hor : OracleOk look req := by
+    intro lib a f info hra hl hf
+    obtain ⟨src, hwf, hfrom⟩ := hsrc lib f ⟨a, hra⟩ hl
+    obtain ⟨r, hr, hs, _⟩ := hfrom a info hf
+    have := (symbolAt_contains src hwf a r hr).1
+    exact ⟨by omega, hframes lib a f info hra hl hf⟩
+  obtain ⟨t1, t2⟩ := C07_total look extOrder hext req hor
+  refine ⟨hor, t1, t2, ?_⟩
+  intro resp h j s i job fr rf sym hfa hra hsym n hn
+  obtain ⟨_, sh⟩ := C07_shape look extOrder hext req resp h
+  obtain ⟨rf', lib, hrf', hlib, _⟩ := sh j s i job fr hfa
+  have htr := C07_truthful look extOrder hext req resp h j s i job fr rf lib hfa hra hlib
+  have hreqA := requestedAddr_of_frameAt hfa hlib
+  cases hl : look lib with
+  | error e => rw [hl] at htr; simp only at htr; rw [hsym] at htr; simp at htr
+  | ok f =>
+    rw [hl] at htr
+    simp only at htr
+    cases hf : f fr.address with
+    | none => rw [hf] at htr; simp only at htr; rw [hsym] at htr; simp at htr
+    | some info =>
+      rw [hf] at htr
+      simp only at htr
+      obtain ⟨sym', hs', hoff, hsize, _⟩ := htr
+      rw [hsym] at hs'
+      injection hs' with hs'
+      subst hs'
+      obtain ⟨src, hwf, hfrom⟩ := hsrc lib f ⟨fr.address, hreqA⟩ hl
+      obtain ⟨r, hr, hstart, hsz⟩ := hfrom fr.address info hf
+      have hc := (symbolAt_contains src hwf fr.address r hr).2 n (by rw [← hsz, ← hsize, hn])
+      omega
+
 /-! ### Non-vacuity
 
 A request with the `jobs` wrapper and two jobs that share one library (at different module indices), an
@@ -465,3 +639,44 @@ model (like the Rust code's `frame.address - symbol_address`) panic -/
 example : failOf (queryApi (fun _ => .ok fun _ => some ⟨0x20, none, "f", .none⟩) id
     (.justOneJob ⟨[C07_libA], [[⟨0, 0x10⟩]]⟩)) = some (.panic "mod.rs:232 attempt to subtract with overflow") := by
   decide
+
+/-! #### non-vacuity of the front-end theorems (ids as character lists; the kernel evaluates the parser) -/
+
+/-- a 33-character id, the same in lower case with a three-digit age, a PDB 2.0 id -/
+example : toDebugIdChars ("DFB8E43AF2423D73A453AEB6A777EF75a".toList) =
+    some ⟨false, 0xDFB8E43AF2423D73A453AEB6A777EF75, 10⟩ := by decide
+example : toDebugIdChars ("dfb8e43af2423d73a453aeb6a777ef7500A".toList) =
+    some ⟨false, 0xDFB8E43AF2423D73A453AEB6A777EF75, 10⟩ := by decide
+example : toDebugIdChars ("4C4C4F571".toList) = some ⟨true, 0x4C4C4F57 * 2 ^ 96, 1⟩ := by decide
+/-- rejected: 31 digits + age, no age, nil, hyphenated, age above `u32`, a `-` age -/
+example : toDebugIdChars ("0123456789ABCDEF0123456789ABCDE1".toList) = none := by decide
+example : toDebugIdChars ("0123456789ABCDEF0123456789ABCDEF".toList) = none := by decide
+example : toDebugIdChars ("000000000000000000000000000000000".toList) = none := by decide
+example : toDebugIdChars ("DFB8E43A-F242-3D73-A453-AEB6A777EF75-a".toList) = none := by decide
+example : toDebugIdChars ("DFB8E43AF2423D73A453AEB6A777EF75100000000".toList) = none := by decide
+example : toDebugIdChars ("DFB8E43AF2423D73A453AEB6A777EF75-1".toList) = none := by decide
+example : BreakpadIdOk ("dfb8e43af2423d73a453aeb6a777ef75+0a".toList) = true := by decide
+
+/-- `jobs` wins over a top-level job; a `jobs` list with a negative number falls through to the top-level job -/
+example : (decodeBody ⟨some [⟨[C07_libA], [[(0, 5)]]⟩, ⟨[], []⟩], some ⟨[C07_libB], [[(0, 7)]]⟩⟩).map Request.jobs =
+    some [⟨[C07_libA], [[⟨0, 5⟩]]⟩, ⟨[], []⟩] := by decide
+example : (decodeBody ⟨some [⟨[C07_libA], [[(0, -5)]]⟩, ⟨[], []⟩], some ⟨[C07_libB], [[(0, 7)]]⟩⟩).map Request.jobs =
+    some [⟨[C07_libB], [[⟨0, 7⟩]]⟩] := by decide
+
+/-- the hypothesis `SymbolsFrom` of `C07_total_over_C05` is met by the oracle function read off any modelled
+symbol map (here without debug info), and jitdump / Breakpad / object sources are well-formed under C05's
+own hypotheses (an empty Breakpad index is the trivial instance) -/
+example (src : SymSource) :
+    SymbolsFrom (fun a => match src.symbolAt a with
+      | .hit r => some ⟨r.start, r.size, "f", .none⟩
+      | _ => none) src := by
+  intro a info h
+  simp only at h
+  split at h
+  · next r hr =>
+    injection h with h
+    subst h
+    exact ⟨r, hr, rfl, rfl⟩
+  · simp at h
+
+example (f : Breakpad.File) : (SymSource.breakpad f []).WellFormed := List.Pairwise.nil
